@@ -105,7 +105,7 @@ fn text_at(c: Ctx<'_>, p: usize, s: usize, e: usize) -> Option<usize> {
     Some(p + n)
 }
 /// Decode the char at `p` (the text is valid UTF-8 and `p` a boundary).
-fn char_at(c: Ctx<'_>, p: usize) -> Option<(u32, usize)> {
+pub fn char_at(c: Ctx<'_>, p: usize) -> Option<(u32, usize)> {
     if p >= c.end {
         return None;
     }
